@@ -243,11 +243,11 @@ def run(tier, seed):
     jobs = []
     la, lb = (6, 5) if thorough else (5, 4)
     for i in range(n):
-        jobs.append(subprocess.Popen([harness, "c05", "A", str(la), str(i), str(n), os.path.join(scratch, "a%d" % i)], stdout=subprocess.PIPE, stderr=subprocess.DEVNULL))
+        jobs.append(common.FileProc([harness, "c05", "A", str(la), str(i), str(n), os.path.join(scratch, "a%d" % i)]))
     for i in range(n):
-        jobs.append(subprocess.Popen([harness, "c05", "B", str(lb), str(i), str(n), os.path.join(scratch, "b%d" % i)], stdout=subprocess.PIPE, stderr=subprocess.DEVNULL))
+        jobs.append(common.FileProc([harness, "c05", "B", str(lb), str(i), str(n), os.path.join(scratch, "b%d" % i)]))
     for i in range(n):
-        jobs.append(subprocess.Popen([harness, "c05", "C", str(lb), str(i), str(n), os.path.join(scratch, "c%d" % i)], stdout=subprocess.PIPE, stderr=subprocess.DEVNULL))
+        jobs.append(common.FileProc([harness, "c05", "C", str(lb), str(i), str(n), os.path.join(scratch, "c%d" % i)]))
     l1_strings = 0
     for p in jobs:
         o, _ = p.communicate()
